@@ -1385,7 +1385,7 @@ Definition blank_fs : fsys :=
 
 Lemma block_refuted :
   exists w fs cwd top fuel it p i,
-    ra_error (read_all_u w fs cwd top fuel) = None /\
+    ra_error (read_all w fs cwd top fuel) = None /\
     snd (fst (scan_file w false 0 top (f_rest (read_front_matters (file_lines (snd (List.hd ("", "") fs))))))) = [it] /\
     In (YInput p i) (item_yields w (fs_text fs cwd) (dirname top) it) /\
     fst (fst it) = 2 /\ i_bt i = 1 /\ i_lines i = ["mode n"].
@@ -1408,7 +1408,7 @@ Lemma flatten_lead_comment_refuted :
            (bfsG (s_children w t (dirname top)) n (reads_of w top (sfile_tcards false 0 tsf))) /\
     gen_atG (s_children w t (dirname top)) n (reads_of w top (sfile_tcards false 0 tsf)) = [] /\
     List.length (bfsG (s_children w t (dirname top)) n (reads_of w top (sfile_tcards false 0 tsf))) <= fuel /\
-    ycards (ra_yields (read_all_ft w (tree_ft top (front ++ render tsf) t) top fuel))
+    ycards (ra_yields (read_all_gft w (tree_ft top (front ++ render tsf) t) "/" top fuel))
       = [(0, ["1 0 -1"]); (1, ["1 so 5"]); (2, ["mode n"]); (2, ["c lead"; "nps 10"])] /\
     ycards (ra_yields (read_single w (front ++ render (flatten w t top tsf n))))
       = [(0, ["1 0 -1"]); (1, ["1 so 5"]); (2, ["mode n"; "c lead"]); (2, ["nps 10"])].
@@ -1416,8 +1416,13 @@ Proof.
   exists 128, lead_tree, "/p/top.i", [L "title"], lead_tsf, 2, 1.
   split. { apply front_ok_title. reflexivity. }
   split; [vm_compute; reflexivity|]. split; [reflexivity|].
-  split. { vm_compute. repeat constructor. eexists. repeat split. }
-  split; [vm_compute; reflexivity|]. split; [vm_compute; lia|]. split; vm_compute; reflexivity.
+  assert (E : bfsG (s_children 128 lead_tree (dirname "/p/top.i")) 2
+                (reads_of 128 "/p/top.i" (sfile_tcards false 0 lead_tsf)) = [(2, "d.i", "/p/top.i")])
+    by (vm_compute; reflexivity).
+  rewrite E. split.
+  { constructor; [|constructor]. exists (mkS [[L "c lead"; L "nps 10"]] []).
+    split; [vm_compute; reflexivity|]. split; [vm_compute; reflexivity|reflexivity]. }
+  split; [vm_compute; reflexivity|]. split; [cbn; lia|]. split; vm_compute; reflexivity.
 Qed.
 
 (* a read card cycle: cy2.i holds a data input and reads itself *)
@@ -1604,10 +1609,9 @@ Proof.
     assert (Ha : S (dist anc) <= n).
     { rewrite <- (dist_cons_notin k anc Hk). etransitivity; [|apply dist_le_length].
       apply dist_incl. intros x [<-|Hx]; [exact kE|now apply ancE]. }
-    set (lin' := (k, lin_get lin k ++ anc) :: lin).
-    specialize (IH lin' (q' ++ qs)).
-    destruct (drain_g f ft cwd dir w lin' (q' ++ qs)) as [ys' e']. cbn [snd] in *.
-    apply IH.
+    match goal with |- context [drain_g f ?a1 ?a2 ?a3 ?a4 ?l ?qq] =>
+      set (lin' := l); specialize (IH lin' qq); destruct (drain_g f a1 a2 a3 a4 lin' qq) as [ys' e'] end.
+    cbn [snd] in *. apply IH.
     + intros x. unfold lin'. cbn [lin_get]. destruct (String.eqb k x); [|apply Hlin].
       apply incl_app; [apply Hlin|exact ancE].
     + apply Forall_app. split; [exact Hq'|]. apply Forall_forall. intros c Hc. rewrite (Hpar c Hc). exact kE.
@@ -1632,3 +1636,315 @@ Proof.
       assert (H4 : List.length qs * wsum R (n - S (dist anc)) <= R * wsum R (n - S (dist anc))) by nia.
       lia.
 Qed.
+
+(* every file yields at most as many read cards as it has lines *)
+Lemma rd_loop_count : forall w rec ls ln bc bt cont hnc raw,
+  List.length (fst (rd_loop w rec ls ln bc bt cont hnc raw))
+  <= List.length ls + (if nonempty raw then 1 else 0).
+Proof.
+  intros w rec. induction ls as [|l r IH]; intros ln bc bt cont hnc raw.
+  - cbn [rd_loop fst List.length]. unfold flush. destruct (nonempty raw); cbn; lia.
+  - cbn [rd_loop]. cbv zeta. cbn [List.length].
+    assert (Hf : forall n0, List.length (flush bt raw n0) <= (if nonempty raw then 1 else 0))
+      by (intros n0; unfold flush; destruct (nonempty raw); cbn; lia).
+    destruct (all_space (expandtabs TABSIZE l)).
+    + destruct (andb (Nat.leb 3 (S bc)) (negb rec)); [cbn [fst]; specialize (Hf (S ln)); lia|].
+      match goal with |- context [rd_loop w rec r ?a ?b ?c ?d ?e ?f] =>
+        specialize (IH a b c d e f); destruct (rd_loop w rec r a b c d e f) as [o e0] end.
+      cbn [fst nonempty] in *. rewrite app_length. specialize (Hf (S ln)). lia.
+    + match goal with |- context [if ?c then (?p, Some UnsupportedFeature) else _] => destruct c end.
+      * cbn [fst]. match goal with |- List.length (if ?c then _ else _) <= _ => destruct c end;
+          [specialize (Hf (S ln)); lia|cbn; lia].
+      * match goal with |- context [rd_loop w rec r ?a ?b ?c ?d ?e ?f] =>
+          specialize (IH a b c d e f); destruct (rd_loop w rec r a b c d e f) as [o e0] end.
+        cbn [fst] in *. rewrite app_length.
+        assert (Hne : forall (x : list string) y, nonempty (x ++ [y]) = true) by (intros [|? ?] ?; reflexivity).
+        rewrite Hne in IH.
+        match goal with |- List.length (if ?c then _ else _) + _ <= _ => destruct c eqn:Ec end.
+        -- specialize (Hf (S ln)).
+           assert (nonempty raw = true) by (repeat (apply andb_true_iff in Ec as [_ Ec]); exact Ec).
+           rewrite H in *. lia.
+        -- cbn [List.length]. lia.
+Qed.
+
+Lemma cut_at_err_length : forall ins, List.length (fst (cut_at_err ins)) <= List.length ins.
+Proof.
+  induction ins as [|i r IH]; [cbn; lia|]. cbn [cut_at_err].
+  destruct (classify i); [| |cbn; lia]; destruct (cut_at_err r) as [p e]; cbn [fst List.length] in *; lia.
+Qed.
+
+Lemma queue_of_length : forall path ins, List.length (queue_of path ins) <= List.length ins.
+Proof.
+  intros path. induction ins as [|i r IH]; [cbn; lia|]. unfold queue_of in *. cbn [flat_map].
+  rewrite app_length. cbn [List.length]. destruct (classify i); simpl List.length; cbn [Nat.add];
+    [apply le_S|apply le_n_S|apply le_S]; exact IH.
+Qed.
+
+Lemma scan_file_count : forall w rec bt p ls,
+  List.length (snd (fst (scan_file w rec bt p ls))) <= List.length ls.
+Proof.
+  intros. unfold scan_file, read_data_rec.
+  assert (H := rd_loop_count w rec ls 0 0 bt false false []). cbn [nonempty] in H.
+  destruct (rd_loop w rec ls 0 0 bt false false []) as [ins e]. cbn [fst] in H.
+  assert (H1 := cut_at_err_length ins). destruct (cut_at_err ins) as [pre perr]. cbn [fst snd] in *.
+  assert (H2 := queue_of_length p pre). lia.
+Qed.
+
+Lemma message_loop_rest : forall ls acc, List.length (f_rest (message_loop ls acc)) <= List.length ls.
+Proof.
+  induction ls as [|l r IH]; intros acc; [cbn; lia|]. cbn [message_loop].
+  destruct (all_space l).
+  - destruct r; cbn [f_rest List.length]; lia.
+  - specialize (IH (acc ++ [rstrip l])). cbn [List.length]. lia.
+Qed.
+
+Lemma front_rest_length : forall ls, List.length (f_rest (read_front_matters ls)) <= List.length ls.
+Proof.
+  intros [|l r]; [cbn; lia|]. cbn [read_front_matters].
+  destruct (String.prefix "MESSAGE:" (upper l)); [|cbn [f_rest List.length]; lia].
+  assert (H := message_loop_rest r [rstrip (dropS 9 l)]). cbn [List.length]. lia.
+Qed.
+
+(* the keys (os.path.realpath) of the files that exist *)
+Definition norm_key (x : string) : string := "/" ++ join "/" (norm_segs (split_on "/"%char x) []).
+Definition fs_keys (fs : fsys) : list string := map (fun kv => norm_key (fst kv)) fs.
+Definition max_lines (fs : fsys) : nat := list_max (map (fun kv => List.length (file_lines (snd kv))) fs).
+
+Lemma lookup_In : forall fs p v, lookup fs p = Some v -> In (p, v) fs.
+Proof.
+  induction fs as [|[k x] r IH]; intros p v H; [discriminate|]. cbn [lookup] in H.
+  destruct (String.eqb_spec k p) as [->|_]; [injection H as ->; now left|right; now apply IH].
+Qed.
+
+Lemma fs_text_key : forall fs cwd p ls, fs_text fs cwd p = Some ls -> In (realpath cwd p) (fs_keys fs).
+Proof.
+  intros fs cwd p ls H. unfold fs_text, fs_open in H.
+  destruct (lookup fs (abs_path cwd p)) as [v|] eqn:E; [|discriminate].
+  apply lookup_In in E. unfold fs_keys. apply in_map_iff. exists (abs_path cwd p, v). split; [reflexivity|exact E].
+Qed.
+
+Lemma fs_text_lines : forall fs cwd p ls, fs_text fs cwd p = Some ls -> List.length ls <= max_lines fs.
+Proof.
+  intros fs cwd p ls H. unfold fs_text, fs_open in H.
+  destruct (lookup fs (abs_path cwd p)) as [v|] eqn:E; [|discriminate]. cbn [option_map] in H. injection H as <-.
+  apply lookup_In in E. unfold max_lines.
+  assert (F := proj1 (list_max_le (map (fun kv => List.length (file_lines (snd kv))) fs) _) (le_n _)).
+  rewrite Forall_forall in F. apply F. apply in_map_iff. exists (abs_path cwd p, v). split; [reflexivity|exact E].
+Qed.
+
+(* termination: with R = the largest number of lines of a file and n = the number of files, R (1 + R + ... + R^n)
+   units of fuel are enough for every file system, every top-level file and every working directory *)
+Theorem readq_terminates : forall w fs cwd top fuel,
+  max_lines fs * wsum (max_lines fs) (List.length fs) <= fuel ->
+  ra_error (read_all w fs cwd top fuel) <> Some E_OutOfFuel.
+Proof.
+  intros w fs cwd top fuel Hfuel. unfold read_all, read_all_gft. cbv zeta.
+  destruct (fs_text fs cwd top) as [ls|] eqn:Et; [|cbn; discriminate].
+  assert (Hs := scan_file_err w false 0 top (f_rest (read_front_matters ls))).
+  assert (Hp := scan_file_parent w false 0 top (f_rest (read_front_matters ls))).
+  assert (Hc := scan_file_count w false 0 top (f_rest (read_front_matters ls))).
+  destruct (scan_file w false 0 top (f_rest (read_front_matters ls))) as [[ys qs] [e|]]; cbn [fst snd ra_error] in *;
+    [exact Hs|].
+  set (R := max_lines fs) in *. set (E := fs_keys fs).
+  assert (HT := drain_g_terminates w (fs_text fs cwd) cwd (dirname top) E R (fs_text_key fs cwd)).
+  assert (HR : forall bt p ls0, fs_text fs cwd p = Some ls0 ->
+                 List.length (snd (fst (scan_file w true bt p ls0))) <= R).
+  { intros bt p ls0 H0. etransitivity; [apply scan_file_count|]. eapply fs_text_lines; eauto. }
+  specialize (HT HR fuel [(realpath cwd top, [])] qs).
+  destruct (drain_g fuel (fs_text fs cwd) cwd (dirname top) w [(realpath cwd top, [])] qs) as [ys' e'].
+  cbn [ra_error snd] in *. apply HT.
+  - intros x. cbn [lin_get]. destruct (String.eqb (realpath cwd top) x); intros y [].
+  - apply Forall_forall. intros c Hin. rewrite (Hp c Hin). eapply fs_text_key; eauto.
+  - unfold pot. etransitivity; [|exact Hfuel].
+    etransitivity; [apply (list_sum_bound _ _ (wsum R (List.length E)))|].
+    + intros c _. apply wsum_mono. lia.
+    + unfold E, fs_keys. rewrite map_length.
+      assert (List.length qs <= R).
+      { etransitivity; [exact Hc|]. etransitivity; [apply front_rest_length|]. eapply fs_text_lines; eauto. }
+      nia.
+Qed.
+
+(* ------------------------------------------------------------------ *)
+(* the statements about the order of the stream, for the present reader *)
+Ltac via_transparency := intros; rewrite gft_transparent by assumption.
+
+Lemma g_order : forall w ft cwd top fuel ls ys0 q0 n,
+  ft top = Some ls ->
+  scan_file w false 0 top (f_rest (read_front_matters ls)) = (ys0, q0, None) ->
+  Forall (item_ok w ft (dirname top)) (bfs n w ft (dirname top) q0) ->
+  gen_at n w ft (dirname top) q0 = [] ->
+  List.length (bfs n w ft (dirname top) q0) <= fuel ->
+  ra_error (read_all_gft w ft cwd top fuel) <> Some E_Cycle ->
+  ra_yields (read_all_gft w ft cwd top fuel)
+    = ys0 ++ flat_map (item_yields w ft (dirname top)) (bfs n w ft (dirname top) q0)
+  /\ ra_error (read_all_gft w ft cwd top fuel) = None.
+Proof. via_transparency. eapply readq_order; eauto. Qed.
+
+Lemma g_once : forall w ft cwd top fuel ls ys0 q0 n,
+  ft top = Some ls ->
+  scan_file w false 0 top (f_rest (read_front_matters ls)) = (ys0, q0, None) ->
+  Forall (item_ok w ft (dirname top)) (bfs n w ft (dirname top) q0) ->
+  gen_at n w ft (dirname top) q0 = [] ->
+  List.length (bfs n w ft (dirname top) q0) <= fuel ->
+  ra_error (read_all_gft w ft cwd top fuel) <> Some E_Cycle ->
+  inputs_of (ra_yields (read_all_gft w ft cwd top fuel))
+    = inputs_of ys0 ++
+      flat_map (fun it => inputs_of (item_yields w ft (dirname top) it)) (bfs n w ft (dirname top) q0).
+Proof. via_transparency. eapply readq_once; eauto. Qed.
+
+Lemma g_block_order : forall w ft cwd top fuel ls ys0 q0 n b,
+  ft top = Some ls ->
+  scan_file w false 0 top (f_rest (read_front_matters ls)) = (ys0, q0, None) ->
+  Forall (item_ok w ft (dirname top)) (bfs n w ft (dirname top) q0) ->
+  Forall (item_one_block ft (dirname top)) (bfs n w ft (dirname top) q0) ->
+  gen_at n w ft (dirname top) q0 = [] ->
+  List.length (bfs n w ft (dirname top) q0) <= fuel ->
+  ra_error (read_all_gft w ft cwd top fuel) <> Some E_Cycle ->
+  block_of b (ycards (ra_yields (read_all_gft w ft cwd top fuel)))
+    = block_of b (ycards ys0) ++
+      flat_map (fun it => ycards (item_yields w ft (dirname top) it))
+               (filter (fun it => Nat.eqb (fst (fst it)) b) (bfs n w ft (dirname top) q0)).
+Proof. via_transparency. eapply readq_block_order; eauto. Qed.
+
+Lemma g_missing : forall w ft cwd top fuel ls ys0 q0 n pre it post,
+  ft top = Some ls ->
+  scan_file w false 0 top (f_rest (read_front_matters ls)) = (ys0, q0, None) ->
+  bfs n w ft (dirname top) q0 = pre ++ it :: post ->
+  Forall (item_ok w ft (dirname top)) pre -> item_missing ft (dirname top) it ->
+  List.length pre < fuel ->
+  ra_error (read_all_gft w ft cwd top fuel) <> Some E_Cycle ->
+  ra_error (read_all_gft w ft cwd top fuel) = Some E_FileNotFound /\
+  ra_yields (read_all_gft w ft cwd top fuel) = ys0 ++ flat_map (item_yields w ft (dirname top)) pre.
+Proof. via_transparency. eapply readq_missing; eauto. Qed.
+
+Lemma g_missing_top : forall w ft cwd top fuel,
+  ft top = None -> ra_error (read_all_gft w ft cwd top fuel) = Some E_FileNotFound.
+Proof. intros * H. unfold read_all_gft. now rewrite H. Qed.
+
+Lemma g_kept : forall w ft cwd top fuel ls ys0 q0 n,
+  ft top = Some ls ->
+  scan_file w false 0 top (f_rest (read_front_matters ls)) = (ys0, q0, None) ->
+  Forall (item_ok w ft (dirname top)) (bfs n w ft (dirname top) q0) ->
+  gen_at n w ft (dirname top) q0 = [] ->
+  List.length (bfs n w ft (dirname top) q0) <= fuel ->
+  ra_error (read_all_gft w ft cwd top fuel) <> Some E_Cycle ->
+  inputs_of (ra_yields (read_all_gft w ft cwd top fuel))
+    = map (pair top) (filter (fun i => negb (is_name (classify i)))
+                             (fst (read_data_rec w false 0 (f_rest (read_front_matters ls))))) ++
+      flat_map (fun it => map (pair (item_path (dirname top) it))
+                              (filter (fun i => negb (is_name (classify i))) (item_inputs w ft (dirname top) it)))
+               (bfs n w ft (dirname top) q0).
+Proof. via_transparency. eapply readq_kept; eauto. Qed.
+
+Lemma drain_g_no_read_card : forall w ft cwd dir fuel lin q,
+  Forall (fun y => match y with YInput _ i => is_name (classify i) = false | YNone => True end)
+         (fst (drain_g fuel ft cwd dir w lin q)).
+Proof.
+  intros w ft cwd dir. induction fuel as [|f IH]; intros lin q.
+  - destruct q as [|[[bt name] par] q]; constructor.
+  - destruct q as [|[[bt name] par] q]; [constructor|]. cbn [drain_g]. cbv zeta.
+    match goal with |- context [if ?c then _ else _] => destruct c end; [constructor|].
+    destruct (ft (path_join dir name)) as [ls|]; [|constructor].
+    assert (Hs := scan_file_no_read_card w true bt (path_join dir name) ls).
+    destruct (scan_file w true bt (path_join dir name) ls) as [[ys qs] [e|]]; cbn [fst] in *; [exact Hs|].
+    match goal with |- context [drain_g f ft cwd dir w ?l ?qq] =>
+      specialize (IH l qq); destruct (drain_g f ft cwd dir w l qq) as [ys' e'] end.
+    cbn [fst] in *. apply Forall_app. now split.
+Qed.
+
+Lemma g_no_read_card : forall w ft cwd top fuel,
+  Forall (fun c => is_name (classify_lines (snd c)) = false) (ycards (ra_yields (read_all_gft w ft cwd top fuel))).
+Proof.
+  intros. apply ycards_no_read_card. unfold read_all_gft. destruct (ft top) as [ls|]; [|constructor]. cbv zeta.
+  assert (Hs := scan_file_no_read_card w false 0 top (f_rest (read_front_matters ls))).
+  destruct (scan_file w false 0 top (f_rest (read_front_matters ls))) as [[ys qs] [e|]]; cbn [fst] in *; [exact Hs|].
+  match goal with |- context [drain_g fuel ft cwd ?d w ?l qs] =>
+    assert (Hd := drain_g_no_read_card w ft cwd d fuel l qs); destruct (drain_g fuel ft cwd d w l qs) as [ys' e'] end.
+  cbn [fst ra_yields] in *. apply Forall_app. now split.
+Qed.
+
+(* working directory *)
+Lemma realpath_abs : forall cwd cwd' p, is_abs p = true -> realpath cwd p = realpath cwd' p.
+Proof. intros cwd cwd' p H. unfold realpath, abs_path. now rewrite H. Qed.
+
+Lemma drain_g_cwd : forall ft ft' cwd cwd' dir w,
+  is_abs dir = true ->
+  (forall name, ft (path_join dir name) = ft' (path_join dir name)) ->
+  forall fuel lin q, Forall (fun it : qitem => is_abs (snd it) = true) q ->
+  drain_g fuel ft cwd dir w lin q = drain_g fuel ft' cwd' dir w lin q.
+Proof.
+  intros ft ft' cwd cwd' dir w Hdir Hext. induction fuel as [|f IH]; intros lin q Hq.
+  - destruct q as [|[[bt name] par] q]; reflexivity.
+  - destruct q as [|[[bt name] par] q]; [reflexivity|].
+    inversion Hq as [|? ? Hpar Hq']; subst. cbn [snd] in Hpar.
+    cbn [drain_g]. cbv zeta. rewrite <- Hext.
+    rewrite (realpath_abs cwd cwd' par Hpar).
+    rewrite (realpath_abs cwd cwd' (path_join dir name) (path_join_abs dir name Hdir)).
+    match goal with |- context [if ?c then _ else _] => destruct c end; [reflexivity|].
+    destruct (ft (path_join dir name)) as [ls|]; [|reflexivity].
+    assert (Hp := scan_file_parent w true bt (path_join dir name) ls).
+    destruct (scan_file w true bt (path_join dir name) ls) as [[ys qs] [e|]]; [reflexivity|]. cbn [fst snd] in Hp.
+    rewrite IH; [reflexivity|]. apply Forall_app. split; [exact Hq'|].
+    apply Forall_forall. intros c Hc. rewrite (Hp c Hc). now apply path_join_abs.
+Qed.
+
+Lemma g_cwd_free : forall w fs cwd cwd' top fuel,
+  is_abs top = true -> read_all w fs cwd top fuel = read_all w fs cwd' top fuel.
+Proof.
+  intros * H. unfold read_all, read_all_gft. cbv zeta. rewrite (fs_text_abs fs cwd cwd' top H).
+  destruct (fs_text fs cwd' top) as [ls|]; [|reflexivity].
+  assert (Hp := scan_file_parent w false 0 top (f_rest (read_front_matters ls))).
+  destruct (scan_file w false 0 top (f_rest (read_front_matters ls))) as [[ys qs] [e|]]; [reflexivity|]. cbn [fst snd] in Hp.
+  rewrite (realpath_abs cwd cwd' top H).
+  rewrite (drain_g_cwd (fs_text fs cwd) (fs_text fs cwd') cwd cwd' (dirname top) w); [reflexivity| | |].
+  - now apply dirname_abs.
+  - intros name. apply fs_text_abs. apply path_join_abs. now apply dirname_abs.
+  - apply Forall_forall. intros c Hc. now rewrite (Hp c Hc).
+Qed.
+
+(* examples for the present reader *)
+Lemma ex_g_result :
+  ycards (ra_yields (read_all 128 ex_fs "/somewhere/else" ex_top 4))
+  = [ (0, ["1 0 -1"]); (1, ["1 so 5"]); (2, ["mode n"]); (2, ["nps 10"]);
+      (0, ["2 0 1"]); (2, ["sdef"]); (2, ["m1 1001.80c 1"]); (2, ["ctme 5"]) ]
+  /\ ra_error (read_all 128 ex_fs "/somewhere/else" ex_top 4) = None.
+Proof. split; vm_compute; reflexivity. Qed.
+
+Lemma cycle_reported :
+  forall fuel, 2 <= fuel ->
+  ra_error (read_all 128 cy_fs "/" "/p/top.i" fuel) = Some E_Cycle /\
+  ycards (ra_yields (read_all 128 cy_fs "/" "/p/top.i" fuel)) = [(0, ["1 0 -1"]); (1, ["1 so 5"]); (2, ["nps 10"])].
+Proof.
+  intros [|[|fuel]] H; try lia. split; vm_compute; reflexivity.
+Qed.
+
+Lemma guard_quiet_example :
+  let fs := [ ("/p/top.i", cat [L "t"; L "1 0 -1"; L ""; L "1 so 5"; L ""; L "read file=a.i"; L "read file=sub/../a.i"]);
+              ("/p/a.i", cat [L "c only a comment"]); ("/p/sub/../a.i", cat [L "c only a comment"]) ] in
+  ra_error (read_all 128 fs "/" "/p/top.i" 3) = None /\
+  read_all 128 fs "/" "/p/top.i" 3 = read_all_u 128 fs "/" "/p/top.i" 3.
+Proof. split; vm_compute; reflexivity. Qed.
+
+Lemma g_flatten : forall w t top front tsf n cwd,
+  front_ok front ->
+  top_ok w tsf = true ->
+  slookup t top = None ->
+  Forall (s_item_ok w t (dirname top))
+         (bfsG (s_children w t (dirname top)) n (reads_of w top (sfile_tcards false 0 tsf))) ->
+  forall fuel,
+  gen_atG (s_children w t (dirname top)) n (reads_of w top (sfile_tcards false 0 tsf)) = [] ->
+  List.length (bfsG (s_children w t (dirname top)) n (reads_of w top (sfile_tcards false 0 tsf))) <= fuel ->
+  ra_error (read_all_gft w (tree_ft top (front ++ render tsf) t) cwd top fuel) <> Some E_Cycle ->
+  let r := read_all_gft w (tree_ft top (front ++ render tsf) t) cwd top fuel in
+  let r1 := read_single w (front ++ render (flatten w t top tsf n)) in
+  ra_error r = None /\ ra_error r1 = None /\
+  by_blocks (ycards (ra_yields r)) = ycards (ra_yields r1) /\
+  ra_message r = ra_message r1 /\ ra_title r = ra_title r1.
+Proof.
+  intros * Hf Ht Hfr Hit fuel Hg Hl Hc. cbv zeta. rewrite gft_transparent by exact Hc.
+  exact (readq_flatten w t top front tsf n Hf Ht Hfr Hit fuel Hg Hl).
+Qed.
+
+Lemma ex_tree_no_cycle_report :
+  ra_error (read_all_gft 128 (tree_ft ex_top ([L "title"] ++ render ex_tsf) ex_tree) "/elsewhere" ex_top 4) = None.
+Proof. vm_compute. reflexivity. Qed.
